@@ -175,6 +175,14 @@ def validate_taxonomy_tree(
             "tree has no 'hierarchy'")
     hierarchy = taxonomy_tree['hierarchy']
 
+    if len(hierarchy) == 0:
+        raise RuntimeError(
+            "tree has an empty 'hierarchy'")
+
+    if len(set(hierarchy)) != len(hierarchy):
+        raise RuntimeError(
+            f"hierarchy lists a level more than once: {hierarchy}")
+
     expected_keys = set(hierarchy)
     expected_keys.add('hierarchy')
     bad_keys = {'metadata', 'name_mapper', 'hierarchy_mapper'}
@@ -232,6 +240,10 @@ def validate_taxonomy_tree(
                         msg += f"{this_parent}\nand "
                         msg += f"{child_to_parent[child_level][this_child]}"
                         raise RuntimeError(msg)
+                    msg = f"at level {child_level}, node {this_child} "
+                    msg += "is listed more than once as a child of "
+                    msg += f"{parent_level}:{this_parent}"
+                    raise RuntimeError(msg)
                 else:
                     child_to_parent[child_level][this_child] = this_parent
 
